@@ -742,6 +742,8 @@ def drv_elementwise_typed_formula(c, ctx, col):
     dtype = c.pick(ctx["dtypes"])
     x = c.seq(typed_alphabet(dtype), ctx["L"], 1)
     output = c.pick(ctx["outputs"])
+    if dtype == "bool" and output == "sparse":
+        raise Skip()      # UNSPECIFIED: numpy evaluates exp/log of a bool column in float16, which scipy.sparse rejects
     if not all(v <= 64 for v in x):
         raise Skip()      # exp(1000) overflows; large values are covered by the direct sub-check for the logarithms
     names = [n for n in sorted(N.ELEMENTWISE) if in_domain(n, x)]
